@@ -8,9 +8,11 @@ From Relay Require Import Base.Prelude Model.Reconws Proofs.Reconws_proofs.
 Local Open Scope Z_scope.
 
 (* while the context is live every scheduled behaviour is attempted, whatever failed before it:
-   one attempt per schedule entry, with the outcome that entry dictates *)
+   one attempt per schedule entry, with the outcome that entry dictates.  [no_keep]: no entry is a
+   connection that the server keeps open for ever (AcceptThenHang) - there the client rightly stays
+   connected, see C19_kept_connection_rests *)
 Theorem C19_retries_forever :
-  forall l c sch,
+  forall l c sch, no_keep l sch ->
     length (client l c sch None) = length sch /\
     map ev_out (client l c sch None) = map (outcome_of l) sch.
 Proof. exact retries_forever. Qed.
@@ -20,7 +22,7 @@ Print Assumptions C19_retries_forever.
    attempt is made, and the wait in front of it depends only on the number of consecutive
    failures that end the prefix *)
 Theorem C19_next_attempt_follows_every_failure :
-  forall l c pre ab rest,
+  forall l c pre ab rest, no_keep l pre ->
     exists e, nth_error (client l c (pre ++ ab :: rest) None) (length pre) = Some e /\
               ev_out e = outcome_of l ab /\
               ev_wait e = wait_after c (trailing_failures l pre).
@@ -31,7 +33,7 @@ Print Assumptions C19_next_attempt_follows_every_failure.
    waits 0 if j = 0 and min(Max, Min * 2^(j-1)) otherwise *)
 Theorem C19_waits_grow_and_cap :
   forall l c pre fs ab rest,
-    good_cfg c -> fresh l pre -> Forall (fun x => fails l x = true) fs ->
+    good_cfg c -> no_keep l pre -> fresh l pre -> Forall (fun x => fails l x = true) fs ->
     exists e, nth_error (client l c (pre ++ fs ++ ab :: rest) None) (length pre + length fs) = Some e /\
               ev_out e = outcome_of l ab /\
               ev_wait e = match length fs with
@@ -69,7 +71,7 @@ Print Assumptions C19_backoff_object.
    fails the following one waits Min. *)
 Theorem C19_reset_after_success :
   forall l c p ok f nxt rest,
-    good_cfg c -> fails l ok = false -> fails l f = true ->
+    good_cfg c -> no_keep l p -> keeps l ok = false -> fails l ok = false -> fails l f = true ->
     (exists e, nth_error (client l c (p ++ ok :: f :: nxt :: rest) None) (S (length p)) = Some e /\
                ev_wait e = 0 /\ ev_out e = outcome_of l f) /\
     (exists e, nth_error (client l c (p ++ ok :: f :: nxt :: rest) None) (S (S (length p))) = Some e /\
@@ -109,6 +111,31 @@ Theorem C19_quiescent_after_cancel :
 Proof. exact quiescent_after_cancel. Qed.
 Print Assumptions C19_quiescent_after_cancel.
 
+(* cancelled while connected: Dial writes a close frame and closes the TCP connection whether or
+   not the peer answers, so a peer that has gone silent cannot keep the client from closing the
+   connection and returning *)
+Theorem C19_cancel_closes_connection :
+  forall answers, reaches_close answers dial_on_cancel = true.
+Proof. exact cancel_closes_connection. Qed.
+Print Assumptions C19_cancel_closes_connection.
+
+(* a connection the server keeps open is where the client rests (no redial while connected), and a
+   cancellation during it ends the run with exactly that attempt *)
+Theorem C19_kept_connection_rests :
+  forall l c pre ab rest, no_keep l pre -> keeps l ab = true ->
+    client l c (pre ++ ab :: rest) None = client l c (pre ++ [ab]) None /\
+    length (client l c (pre ++ ab :: rest) None) = S (length pre).
+Proof. exact kept_connection_rests. Qed.
+Print Assumptions C19_kept_connection_rests.
+
+Theorem C19_cancel_ends_kept_connection :
+  forall l c pre ab rest j, no_keep l pre -> keeps l ab = true ->
+    length (client l c (pre ++ ab :: rest) (Some (length pre, CConn j))) = S (length pre) /\
+    exists e, nth_error (client l c (pre ++ ab :: rest) (Some (length pre, CConn j))) (length pre) = Some e /\
+              is_success (ev_out e) = true.
+Proof. exact cancel_ends_kept_connection. Qed.
+Print Assumptions C19_cancel_ends_kept_connection.
+
 (* a cancellation while the access request is in flight: that attempt never reaches the websocket
    server *)
 Theorem C19_cancel_during_access_never_dials :
@@ -144,11 +171,16 @@ Example C19_witness :
     [OParseFail; OAccessFail; OWsFail; OUriFail; OWsFail; OConnected 3; OUriFail; OWsFail; OConnected 0] /\
   length (client LAuth c sch (Some (3%nat, CWait))) = 3%nat /\
   length (client LAuth c sch (Some (3%nat, CAccess))) = 4%nat /\
+  no_keep LAuth sch /\
+  map ev_out (client LPlain c [(AOk, Down); (AOk, AcceptThenHang 2); (AOk, Down)] None) = [OWsFail; OConnected 2] /\
+  map ev_out (client LPlain c [(AOk, Down); (AOk, AcceptThenHang 2); (AOk, Down)] (Some (1%nat, CConn 2))) = [OWsFail; OConnected 2] /\
+  reaches_close false [DSendClose; DAwaitPeer; DCloseConn] = false /\
   fresh LAuth (firstn 6 sch) /\
   pump_run (pumps_init [1;2;3]%N [7;8]%N) [PWrite; PRead; PRead; PWrite; PWrite] =
     mkpumps [3]%N [1;2]%N [] [7;8]%N.
 Proof.
   vm_compute. repeat split; try discriminate; try reflexivity.
+  { repeat constructor. }
   right. exists [(AHttp5xx, Down); (ADown, Down); (AOk, Refuse); (AEmptyUri, Down); (AOk, Hang)], (AOk, AcceptThenDrop 3).
   split; reflexivity.
 Qed.
